@@ -93,7 +93,7 @@ Dev(kind) == PrintT(<<"SCN", ToJson([dev |-> kind, line |-> l])>>)
 TRunDev == /\ IsRun
            /\ KnownDeviations # {}
            /\ Fits({}) = {}
-           /\ LET m == Fits(KnownDeviations) IN
+           /\ LET m == UNION {Fits(D) : D \in (SUBSET KnownDeviations) \ {{}}} IN
               /\ m # {}
               /\ Dev(IF StatusOf(st, Ev.tx) = "committed" THEN "commit-twice" ELSE "rerun-dup")
               /\ st' = (CHOOSE c \in m : TRUE).s
